@@ -123,6 +123,28 @@ def aggregates_of(a, adt):
     return out
 
 
+def ctor_uses(a, adt):
+    """[(bi, call term, arg index)] — the tuple-struct constructor of `adt` passed around as a function value"""
+    out = []
+    for bi, blk in enumerate(a.body.blocks):
+        if blk['cleanup'] or bi not in a.cfg.reach:
+            continue
+        t = blk['term']
+        if t['k'] == 'call':
+            for i, x in enumerate(t['args']):
+                if x.get('k') == 'const' and 'fn' in x and x['fn'].get('def_kind', '').startswith('Ctor') and x['fn'].get('ctor_of') == adt:
+                    out.append((bi, t, i))
+            f = t['func']
+            if f.get('k') == 'const' and 'fn' in f and f['fn'].get('def_kind', '').startswith('Ctor') and f['fn'].get('ctor_of') == adt:
+                out.append((bi, t, -1))
+        for si, st in enumerate(blk['stmts']):
+            if st['k'] == 'assign':
+                txt = str(st['rv'])
+                if "'ctor_of': '%s'" % adt in txt:
+                    out.append((bi, st, -2))
+    return out
+
+
 # ---------------------------------------------------------------------- returns / errors
 def is_ok_agg(t):
     return t[0] == 'agg' and t[2] == 'core::result::Result::Ok'
